@@ -44,6 +44,10 @@ def run(tier, seed, replay=None):
         for pr in (meta["isolation_problems"] or []):
             res.violation({"property": PID, "kind": "isolation between environments / imports: " + pr,
                            "scenario": "harness/c14.go c14Isolation"})
+        for pr in (meta.get("variant_problems") or [])[:8]:
+            res.violation({"property": PID, "kind": "one tree run in differing environments: a run does not yield what it yields alone", "finding": pr,
+                           "scenario": "harness/c14.go c14Variants: the program is parsed once; environments A / B / C bind T (type), K, L, fn, fn0, M, sf differently; "
+                                       "the shared tree runs in them in three orders and concurrently; each result is compared with a fresh parse in a fresh copy of that environment"})
         for w in (meta["non_fresh_ast_writes"] or [])[:6]:
             res.violation({"property": PID, "kind": "package vm writes into a syntax-tree node it did not create", "write": w,
                            "note": "static finding (go/types); the dynamic runs of this check did not necessarily exercise it"},
@@ -65,7 +69,10 @@ def run(tier, seed, replay=None):
                     "semantic and full-grammar generators): parsed once, dumped, run 4 times in sequence and from 6 goroutines at "
                     "once on fresh environments under the race detector; every run must equal the solo run (value, error class, "
                     "probe trace, bindings), the dump must never change, re-parsing must give the same dump; plus directed "
-                    "isolation scenarios for bindings and import copies; non-trivial = distinct source that does more than fail at once",
+                    "isolation scenarios for bindings and import copies; plus %d programs with free names (a type, values, Go functions, a module, a script "
+                    "function) parsed once and run in three environments binding those names differently, in three orders and concurrently, each "
+                    "compared with a fresh parse in a fresh copy of that environment; non-trivial = distinct source that does more than fail at once" % meta.get("variant_programs", 0),
+            "variant_runs": meta.get("variant_runs"), "variant_problems": len(meta.get("variant_problems") or []),
             "ast_writes_found": meta["ast_writes"], "parse_failures": meta["parse_failures"],
             "samples": [{"src": r["src"][:200], "solo": r["solo"][:120]} for r in results[12:15]],
             "programs_with_problems": nprob, "make_ok": ok_make,
